@@ -22,7 +22,8 @@ def gen_knobs(rng, tier="quick", line=True, max_steps=60000):
 
 
 def gen_model(rng):
-    return dict(cpu=rng.choice([1, 2, 2, 4]), psutil=rng.random() < 0.8)
+    return dict(cpu=rng.choice([1, 2, 2, 4]), psutil=rng.random() < 0.8,
+                boot=rng.choice([0.005, 0.02, 0.02, 0.1]))
 
 
 class Prop:
@@ -145,6 +146,11 @@ def mgr_state(res):
         for i in res.obs.executors.values():
             alive += sum(1 for pid in i["processes"] if res.kernel.procs[pid].alive)
         ctx = ["ex-gone" if gone else "ex-alive", "w%s" % ("0" if alive == 0 else "+")]
+    dead = sorted(set(t["role"].rstrip("0123456789") for t in (res.sched.snapshot or [])
+                      if t.get("waits_for") and t["waits_for"].get("acquirer_alive") is False
+                      and t["role"] != "manager"))
+    if dead:
+        ctx.append("blocked-on-dead:" + "+".join(dead))
     if getattr(res.sched, "livelock_pollers", None) and res.outcome == "livelock":
         pol = []
         for t in (res.sched.snapshot or []):
